@@ -5,7 +5,7 @@
    operations (arbitrary inputs, including verdicts, drawn challenges, payment outcomes) from the
    empty store for the reward theorem. *)
 From Coq Require Import ZArith NArith List Bool.
-From JK Require Import Base.Dec Base.AList Model.StorageFiles Proofs.StorageFilesProofs Proofs.RewardBridge.
+From JK Require Import Base.Dec Base.AList Model.StorageFiles Proofs.StorageFilesProofs Proofs.StorageFilesFrame Proofs.RewardBridge.
 Import ListNotations.
 Open Scope Z_scope.
 
@@ -24,6 +24,19 @@ Theorem C01_postproof_effects_only_on_valid_proof :
              to_prove = stored_challenge s f creator /\ verified = true).
 Proof. exact postproof_effects. Qed.
 Print Assumptions C01_postproof_effects_only_on_valid_proof.
+
+(* A proof message concerns one (prover, file) pair: on every state of the C17 invariant, whatever the
+   payload and the verdict, every proof record other than the sender's own record on the addressed file and
+   every file entry other than the addressed one is left as it was.  In particular a prover is not kept
+   "proven" on one stored copy of a merkle root by proving another copy. *)
+Theorem C01_postproof_touches_only_its_own_pair :
+  forall s creator merkle owner start height to_prove verified new_chunk chunk_size,
+  Inv s ->
+  let r := post_proof s creator merkle owner start height to_prove verified new_chunk chunk_size in
+  (forall k, k <> (creator, owner, merkle, start) -> get_proof (r_state r) k = get_proof s k) /\
+  (forall fk, fk <> (merkle, owner, start) -> get_file (r_state r) fk = get_file s fk).
+Proof. exact postproof_frame. Qed.
+Print Assumptions C01_postproof_touches_only_its_own_pair.
 
 (* An attestation never touches a file entry, and changes a proof record only when the form of
    the named (prover, file) exists, lists the attester and reaches AttestMinToPass with this
